@@ -453,6 +453,9 @@ def build_with_history(ctx, spec, mode, hseed, kw=None, prefer=None):
                     so.set_comp_phases(c["name"], copy.deepcopy(c["phase"]))
             ctx.count("history", mode)
             return spec, so
+    rerail = mode == "solve_then_rerail"
+    if rerail:
+        mode = "solve_then_retune"
     if mode == "solve_then_retune":
         # the system is first built with other THERMAL resistances / loss flags (same electrical operating point),
         # solved with the very arguments of the judged call, and then re-tuned in place to the real values
@@ -460,6 +463,12 @@ def build_with_history(ctx, spec, mode, hseed, kw=None, prefer=None):
         tuned = []
         cands = [c for c in detour["comps"] if c["kind"] != "PMux"]
         rng.shuffle(cands)
+        if rerail:
+            # only the RAIL name differs until after the analysis: same class, same name, same parameters
+            for c in [c for c in cands if c["kind"] not in S.LOADS][: rng.randint(1, 3)]:
+                c["rail"] = "" if (c.get("rail") and rng.random() < 0.4) else "~rail " + c["name"]
+                tuned.append(c["name"])
+            cands = []
         for c in cands[: rng.randint(1, 4)]:
             a = c["args"]
             r_ = rng.random()
